@@ -262,10 +262,10 @@ impl Callable for If {
         if Type::Boolean != cond {
             bail!("Condition type {:?} is not a Boolean", cond);
         }
-        if yes != no {
-            bail!("Condition return type must be same: {:?} {:?}", yes, no);
+        match yes.unify(&no) {
+            Some(t) => Ok(t),
+            None => bail!("Condition return type must be same: {:?} {:?}", yes, no),
         }
-        Ok(yes)
     }
     fn call(&self, ctx: ScriptContextRef, args: &[Value]) -> Result<Value, Error> {
         let cond: bool = args[0].value_of(ctx.clone())?.try_into()?;
